@@ -45,6 +45,8 @@ def kwargs_of(cfg):
         kw["method"] = cfg["mode"]
     if f in ("Tilt", "SAAM", "TRIAD") and cfg["rep"] != "quaternion":
         kw["representation"] = cfg["rep"]
+    if f == "AngularRate" and cfg["rep"] != "quaternion":
+        kw["representation"] = cfg["rep"]
     if f in ("SAAM", "TRIAD") and cfg["rep"] == "quaternion":
         kw["representation"] = "quaternion"
     return kw
@@ -87,6 +89,8 @@ def output_of(cfg, obj):
         return np.asarray(obj.A)
     if f == "Complementary" and rep == "angles":
         return np.asarray(obj.W)
+    if f == "AngularRate" and rep != "quaternion":
+        return np.asarray(obj.R if rep == "rotmat" else obj.W)
     return np.asarray(obj.Q)
 
 
